@@ -280,7 +280,8 @@ class Executor:
         self.objs: dict[int, object] = {}  # uid -> real object
         self.uids: dict[int, int] = {}  # id(real) -> uid
         self.moved_inside: set[int] = set()  # aliases that travelled inside a re-inserted subtree
-        self.reg_seen_ok: set = set()  # (alias uid, id(target), path) whose registration was seen correct
+        self.reg_seen_ok: set = set()
+        self.attach_mark: dict = {}  # id(alias) -> (id(target), length of the target's registry log before its last insertion)  # (alias uid, id(target), path) whose registration was seen correct
         if not model_only:
             import griffe
 
@@ -520,6 +521,9 @@ class Executor:
         base = self.objs[0] if not base_path else self._lookup_real(base_path)
         ctx.steps += 1
         ctx.log("set", (op["api"], op["form"], tuple(path), node.kind, node.uid, tuple(tags)))
+        if node.kind == "alias" and real._target is not None and not real._target.is_alias and isinstance(real._target.aliases, _RecDict):
+            # an insertion (re-)registers the alias with its target: remember how far that registry had got before
+            self.attach_mark[id(real)] = (id(real._target), real._target.aliases.seq)
         exc = None
         if base is None:
             # chained spelling and the intermediate is missing: caller gets KeyError from the lookup
@@ -1013,7 +1017,11 @@ class Executor:
                         if reg is not co:
                             tags = ["moved-subtree"] if self._moved_with_ancestor(cn) else []
                             writes = t.aliases.writes.get(dotted, []) if isinstance(t.aliases, _RecDict) else []
-                            mine = [seq for seq, who in writes if who == id(co)]
+                            mark = self.attach_mark.get(id(co))
+                            since = mark[1] if mark and mark[0] == id(t) else 0
+                            # (only a registration made by its *last* insertion counts: an alias put back where it was
+                            # must be listed again, whatever took its entry while it was away)
+                            mine = [seq for seq, who in writes if who == id(co) and seq > since]
                             if reg is not None and mine and writes[-1][1] != id(co):
                                 # this alias did register itself here; later another alias object that lived at this
                                 # path earlier (deleted, replaced or moved away since; entries are never purged)
